@@ -60,7 +60,7 @@ impl BudgetEnforcer {
         &&& self.report.aliases < usize::MAX
         &&& self.report.nodes < usize::MAX
         &&& self.report.merge_keys < usize::MAX
-        &&& self.report.documents < usize::MAX
+        &&& (self.per_doc() || self.report.documents < usize::MAX)
         &&& self.depth < usize::MAX
     }
 }
